@@ -27,6 +27,9 @@ BOUNDS = {
     "companion": (0, 80, 600), "hap": (0, 60, 400), "datastream": (0, 80, 800), "event": (0, 120, 1500),
     "httpclient": (0, 120, 1500), "httpserver": (0, 160, 2500), "protobufs": (0, 80, 600),
     "mdns": (4, 400, 6000), "features": (0, 20, 200), "credentials": (0, 40, 300),
+    "keyed_archiver": (0, 40, 600), "raop_timing": (0, 20, 300), "unicast_dns": (4, 400, 6000),
+    # one retransmit request names up to 2^16 - 1 sequence numbers: a fixed bound, not input dependent
+    "raop_control": (0, 20, 700000),
 }
 
 
@@ -84,6 +87,13 @@ def valid_seeds(rng):
     seeds["httpserver"] = [b"GET /a HTTP/1.1\r\nHost: x\r\n\r\nPOST /b HTTP/1.1\r\nContent-Length: 2\r\n\r\nhi"]
     seeds["protobufs"] = [write_variant(len(body)) + body, b"\x08\x0f"]
     seeds["features"] = [b"0x5A7FFFF7,0x1E", b"0x1"]
+    import plistlib
+    U = plistlib.UID
+    seeds["keyed_archiver"] = [plistlib.dumps({"$top": {"sessionUUID": U(1), "documentState": U(2)},
+                                               "$objects": ["$null", b"0123456789abcdef", {"docSt": U(3)}, {"contextBeforeInput": U(4)}, "hello"]}, fmt=plistlib.FMT_BINARY)]
+    seeds["raop_control"] = [b"\x80\xd5\x00\x01" + (65000).to_bytes(2, "big") + (1000).to_bytes(2, "big"), b"\x80\xd5\x00\x01\x00\x05\xff\xff"]
+    seeds["raop_timing"] = [b"\x80\xd2\x00\x07" + bytes(28)]
+    seeds["unicast_dns"] = []
     seeds["credentials"] = [b"aa:bb:cc:dd", b"aa:bb"]
     # valid mDNS responses (PTR/SRV/TXT/A, with and without name compression) from the
     # independent encoder of harness/c12.py
@@ -94,6 +104,7 @@ def valid_seeds(rng):
         for dg in c12.device_datagrams(rng, dev):
             seeds["mdns"].append(c12.encode_msg(dg["msg"])[0])
     seeds["mdns"] = seeds["mdns"][:5]
+    seeds["unicast_dns"] = list(seeds["mdns"])
     return seeds
 
 
@@ -102,7 +113,7 @@ def hostile_stream(ctx, seeds):
     jobs = []
     maxlen = 3 if not ctx.thorough else 4
     for dec in BOUNDS:
-        if dec == "mdns":
+        if dec in ("mdns", "unicast_dns"):
             alpha = [0x00, 0x01, 0xC0, 0xFF, 0x0C]
             strings = [bytes(12) + bytes(t) for n in range(0, 4) for t in itertools.product(alpha, repeat=n)]
             strings += [bytes([0, 0, 0x84, 0, 0, q, 0, a, 0, 0, 0, 0]) + bytes(t) for q in (0, 1, 255) for a in (0, 1, 255)
@@ -143,6 +154,23 @@ def hostile_stream(ctx, seeds):
                             b"%d" % (len(seed) + 1), b"%d" % (2 ** 31), b"%d" % (2 ** 64), b"9" * 400]
                     for v in vals:
                         jobs.append({"dec": dec, "data": (seed[:m.start()] + v + seed[m.end():]).hex(), "kind": "number-sweep"})
+    # NSKeyedArchiver blobs whose objects are references to each other: chains, self references, cycles,
+    # dangling indices (the reader follows UID references)
+    import plistlib
+    U = plistlib.UID
+    pool = lambda n: [U(k) for k in range(n + 2)] + ["s", b"b", {"docSt": U(0)}, {"docSt": U(1), "contextBeforeInput": U(2)}, ["x", U(1)], 7]
+    arch = []
+    for n in (1, 2, 3):
+        choices = pool(n)
+        combos = list(itertools.product(choices, repeat=n)) if n < 3 else [tuple(rng.choice(choices) for _ in range(n)) for _ in range(300)]
+        for objs in combos:
+            for top in ({"sessionUUID": U(0), "documentState": U(n - 1)}, {"sessionUUID": U(n - 1), "documentState": {"docSt": U(0)}}):
+                arch.append({"$top": top, "$objects": list(objs)})
+    for a in arch:
+        try:
+            jobs.append({"dec": "keyed_archiver", "data": plistlib.dumps(a, fmt=plistlib.FMT_BINARY).hex(), "kind": "reference-graph"})
+        except Exception:
+            pass
     # regression inputs of the fixed hangs
     for name, c in common.load_corpus("C05"):
         if "dec" in c and "data" in c:
@@ -226,6 +254,8 @@ def hostile_announcements(c12, rng):
 
     bad_values = ["zz", "0xZZ", "", "0x", "-1", "9" * 40, "\xff\xfe", "0x1,0xZ", "nan", "1e999",
                   # long near-matches: values that make a backtracking regular expression explode
+                  # compound values (comma separated key=value lists): known sub-keys without / with empty value
+                  "00-11-22-33-44-55,syVs", "00-11-22-33-44-55,raMA,syVs=", ",syVs", "x,syAP=,syVs", "=", ",,", "00-11-22-33-44-55,syVs=\x00",
                   "a" * 60 + "!", "Mac" + "a" * 60 + "!", "AppleTV" + "1" * 60 + "x", "0" * 60 + "x,", "A1,B2," * 12 + "!"]
     keys = {
         "_companion-link._tcp.local": ["rpfl", "rpmd", "rpmac", "rpba", "rpvr", "rpad"],
